@@ -112,8 +112,10 @@ def classify(ctx, dist, distinct, runs, what, lockstep=True):
                 dist["replay_ok"] += 1
             else:
                 dist["replay_diverge"] += 1
-                ctx.broke("correspondence", "E-CONC lock-step c04 %s seed=%d" % (what, r["seed"]), "%s\n%s" % (r["replay"], text))
-        if len(ctx.failing) + len(ctx.broken) > 8:
+                # keep scanning: a run further on may carry the concrete failing input (oracle) that explains the divergence
+                if dist["replay_diverge"] <= 4:
+                    ctx.broke("correspondence", "E-CONC lock-step c04 %s seed=%d" % (what, r["seed"]), "%s\n%s" % (r["replay"], text))
+        if len(ctx.failing) > 8:
             break
 
 
